@@ -297,6 +297,155 @@ func (c *Ctx) cellOf(addr ssa.Value) *ssa.Alloc {
 	return nil
 }
 
+// sameAddr: a and b are the same address: the same value, or the same field
+// of the same local struct computed twice (`&o.version` at the registration
+// of the flag and `o.version` where it is read).
+func (c *Ctx) sameAddr(a, b ssa.Value) bool {
+	if a == b {
+		return true
+	}
+	fa, ok1 := a.(*ssa.FieldAddr)
+	fb, ok2 := b.(*ssa.FieldAddr)
+	if !ok1 || !ok2 || fa.Field != fb.Field {
+		return false
+	}
+	base := func(v ssa.Value) ssa.Value {
+		if u, ok := v.(*ssa.UnOp); ok && u.Op == token.MUL {
+			v = c.resolve(u)
+		}
+		if fv, ok := v.(*ssa.FreeVar); ok {
+			if al := c.cellOf(fv); al != nil {
+				return al
+			}
+		}
+		return v
+	}
+	ba, bb := base(fa.X), base(fb.X)
+	if ba == bb {
+		_, isAlloc := ba.(*ssa.Alloc)
+		return isAlloc
+	}
+	// nested: o.flags.version
+	return c.sameAddr(ba, bb)
+}
+
+// localFieldStores: the stores to the field addressed by fa, when fa's base
+// is a struct allocated in this function (or captured from the enclosing
+// one) whose address is used for nothing but field accesses — no call
+// receives the struct's address, it is stored nowhere, and no field's address
+// is handed out either. ok=false when that cannot be established.
+func (c *Ctx) localFieldStores(fa *ssa.FieldAddr) ([]*ssa.Store, bool) {
+	base := fa.X
+	if u, ok := base.(*ssa.UnOp); ok && u.Op == token.MUL {
+		base = c.resolve(u) // a pointer kept in a single-assignment local
+	}
+	var al *ssa.Alloc
+	switch b := base.(type) {
+	case *ssa.Alloc:
+		al = b
+	case *ssa.FreeVar:
+		al = c.cellOf(b)
+	}
+	if al == nil {
+		return nil, false
+	}
+	if _, isStruct := al.Type().Underlying().(*types.Pointer).Elem().Underlying().(*types.Struct); !isStruct {
+		return nil, false
+	}
+	key := fmt.Sprintf("localfield:%p:%d", al, fa.Field)
+	if v, ok := c.memo[key]; ok {
+		r := v.([]*ssa.Store)
+		return r, r != nil
+	}
+	var out []*ssa.Store
+	okAll := true
+	var visit func(v ssa.Value, depth int)
+	visit = func(v ssa.Value, depth int) {
+		refs := v.Referrers()
+		if refs == nil || depth > 4 {
+			return
+		}
+		for _, r := range *refs {
+			switch x := r.(type) {
+			case *ssa.DebugRef:
+			case *ssa.FieldAddr:
+				if x.X != v {
+					okAll = false
+					continue
+				}
+				for _, r2 := range *x.Referrers() {
+					switch y := r2.(type) {
+					case *ssa.Store:
+						if y.Addr != ssa.Value(x) {
+							if x.Field == fa.Field {
+								okAll = false // the field's address is stored somewhere
+							}
+							continue
+						}
+						if x.Field == fa.Field {
+							out = append(out, y)
+						}
+					case *ssa.UnOp, *ssa.DebugRef:
+					case *ssa.FieldAddr, *ssa.IndexAddr:
+						// a nested aggregate: writes below this field are writes to it
+						if x.Field == fa.Field {
+							okAll = false
+						}
+					default:
+						// the field's address escapes (flags.IntVar(&o.n, …)): written elsewhere
+						if x.Field == fa.Field {
+							okAll = false
+						}
+					}
+				}
+			case *ssa.Store:
+				if x.Val == v {
+					// the struct's address kept in a local: follow single-assignment copies
+					if cell, isAlloc := x.Addr.(*ssa.Alloc); isAlloc && len(c.cellStores(cell)) == 1 {
+						for _, r3 := range *cell.Referrers() {
+							if ld, isLd := r3.(*ssa.UnOp); isLd && ld.Op == token.MUL {
+								visit(ld, depth+1)
+							}
+						}
+						continue
+					}
+					okAll = false
+				} else if x.Addr == v {
+					okAll = false // the whole struct is overwritten
+				}
+			case *ssa.UnOp:
+				if x.Op == token.MUL {
+					continue // a copy of the whole struct is read
+				}
+				okAll = false
+			case *ssa.MakeClosure:
+				fn, isFn := x.Fn.(*ssa.Function)
+				if !isFn {
+					okAll = false
+					continue
+				}
+				for i, bnd := range x.Bindings {
+					if bnd == v && i < len(fn.FreeVars) {
+						visit(fn.FreeVars[i], depth+1)
+					}
+				}
+			default:
+				okAll = false
+			}
+		}
+	}
+	visit(al, 0)
+	if !okAll {
+		c.memo[key] = []*ssa.Store(nil)
+		return nil, false
+	}
+	if out == nil {
+		out = []*ssa.Store{}
+	}
+	c.memo[key] = out
+	return out, true
+}
+
 // resolve looks through loads of single-store cells (incl. captured
 // variables), ChangeType, and trivially copied values.
 func (c *Ctx) resolve(v ssa.Value) ssa.Value {
@@ -308,6 +457,14 @@ func (c *Ctx) resolve(v ssa.Value) ssa.Value {
 			}
 			cell := c.cellOf(x.X)
 			if cell == nil {
+				// a field of a local struct that is written exactly once
+				// (`o := &options{stdout: stdout, …}` … `o.stdout`)
+				if fa, isFA := x.X.(*ssa.FieldAddr); isFA {
+					if st, ok := c.localFieldStores(fa); ok && len(st) == 1 {
+						v = st[0].Val
+						continue
+					}
+				}
 				return v
 			}
 			st := c.cellStores(cell)
